@@ -9,4 +9,6 @@ for c in $CHECKS; do
   echo "seed $ID check $c exit=$rc : $(grep -c '^VIOLATION' /tmp/seedrun_${ID}_$c.out) violation line(s); $(grep -m1 'failed obligation' /tmp/seedrun_${ID}_$c.out)"
   grep -E "^UNDECIDED" /tmp/seedrun_${ID}_$c.out | head -3 | cut -c1-300
 done
-git -C /repo checkout -- . ; git -C /repo status --short | head -3
+# undo: reverse the patch (removes files the patch created), then make sure nothing is left
+git -C /repo apply -R /verif/seeded/$ID/patch.diff 2>/dev/null
+git -C /repo checkout -- . ; git -C /repo clean -fdq -- rand_xoshiro rand_xorshift rand_hc rand_isaac rand_jitter; git -C /repo status --short | head -3
